@@ -537,6 +537,19 @@ func (g genCtx) items(depth int, inBlock bool) []Item {
 				}
 			}
 			out = append(out, it)
+			// what follows a callee that does not take its block matters: half of the time a call
+			// without a block to a component that has a slot comes right after it
+			if !consumes(it) || it.Callee == "once" || it.Callee == "oncefixed" {
+				var slotted []int
+				for j := g.current + 1; j < g.nComps; j++ {
+					if j >= len(g.leaf) || !g.leaf[j] {
+						slotted = append(slotted, j)
+					}
+				}
+				if len(slotted) > 0 && rapid.Bool().Draw(g.t, "slotAfter") {
+					out = append(out, Item{Kind: "call", Callee: "gen", A: rapid.SampledFrom(slotted).Draw(g.t, "slotComp")})
+				}
+			}
 		}
 	}
 	return out
